@@ -87,8 +87,9 @@ func (c16) Plan(tier string, seed int64) []core.Scenario {
 			out = append(out, core.Sc("revformat").WithN("fmt", f).WithN("order", order))
 		}
 	}
-	for i := 0; i < 3; i++ {
-		out = append(out, core.Sc("stale-reverse-answer").WithN("fk", i%2).WithN("old", 1+i))
+	for i := 0; i < 5; i++ {
+		// noping: a client WithPingInterval(0) - reconnecting must not depend on the keepalive set-up
+		out = append(out, core.Sc("stale-reverse-answer").WithN("fk", i%2).WithN("old", 1+i%3).WithN("noping", i/3))
 	}
 	for i := range out {
 		out[i].Seed = seed*122949829 + int64(i)
@@ -627,7 +628,11 @@ func (c16) staleReverseAnswer(sc core.Scenario, r *core.R) {
 	nOld := sc.I("old")
 	env := NewEnv(EnvOpt{Rev: true})
 	defer env.Shutdown()
-	c, err := env.NewClient(ClientOpt{RevIdent: "A", Opts: []jsonrpc.Option{jsonrpc.WithReconnectBackoff(5*time.Millisecond, 20*time.Millisecond)}})
+	copts := []jsonrpc.Option{jsonrpc.WithReconnectBackoff(5*time.Millisecond, 20*time.Millisecond)}
+	if sc.I("noping") == 1 {
+		copts = append(copts, jsonrpc.WithPingInterval(0))
+	}
+	c, err := env.NewClient(ClientOpt{RevIdent: "A", Opts: copts})
 	if err != nil {
 		r.Inconclusive("client: %v", err)
 		return
@@ -679,7 +684,7 @@ func (c16) staleReverseAnswer(sc core.Scenario, r *core.R) {
 			r.Violate("reverse-foreign-answer", "a reverse call made on the re-established connection failed (%v) after handlers of the old connection finished", o.Err)
 		}
 	}
-	r.Key(fmt.Sprintf("stale-reverse-answer %s old=%d", kind, nOld), true)
+	r.Key(fmt.Sprintf("stale-reverse-answer %s old=%d noping=%d", kind, nOld, sc.I("noping")), true)
 	r.Obs("reverse_calls", int64(2*nOld))
 	r.Sig(core.Log.Signature())
 	r.Sample(map[string]interface{}{"scenario": "old client-side reverse handlers finish after a reconnect while new reverse calls are in flight", "old_handlers": nOld})
